@@ -84,7 +84,7 @@ def run(ctx):
     cmds = []
     for proto in sysattr.PROTOS:
         for sd in range(1 if quick else 8):
-            cmds.append("Q %s %d %d" % (proto, ctx.seed * 100 + sd, 2 if quick else 6))
+            cmds.append("Q %s %d %d" % (proto, ctx.vseed * 100 + sd, 2 if quick else 6))
     for proto in ("btcp", "btls"):
         cmds.append("STUCK " + proto)
     for proto in sysattr.PROTOS:
